@@ -154,7 +154,8 @@ Definition go_atoi (s : string) : option Z :=
          end
   end.
 
-(* date.go: parseTimeZone.  Result: (offset in seconds, zone name = the tz string itself) *)
+(* date.go: parseTimeZone (as repaired: a sign and exactly four digits, hours <= 23,
+   minutes <= 59).  Result: (offset in seconds, zone name = the tz string itself) *)
 Definition parse_time_zone (tz : string) : lres (Z * string) :=
   if negb (slen tz =? 5)%nat then LErr "invalid timezone"
   else
@@ -163,12 +164,19 @@ Definition parse_time_zone (tz : string) : lres (Z * string) :=
     match mult with
     | None => LErr "invalid timezone"
     | Some mult =>
+        (* `for _, c := range tz[1:]`: a non-ASCII byte decodes to a rune >= 0x80, never a digit *)
+        if negb (forallb is_digit_byte (bytes_of (sdrop 1 tz))) then LErr "invalid timezone"
+        else
         match go_atoi (sslice 1 3 tz) with
         | None => LErr "invalid timezone"
         | Some hours =>
+            if 23 <? hours then LErr "invalid timezone"
+            else
             match go_atoi (sslice 3 5 tz) with
             | None => LErr "invalid timezone"
-            | Some minutes => LOk (mult * (60 * ((60 * hours) + minutes)), tz)
+            | Some minutes =>
+                if 59 <? minutes then LErr "invalid timezone"
+                else LOk (mult * (60 * ((60 * hours) + minutes)), tz)
             end
         end
     end.
